@@ -277,6 +277,8 @@ pub fn c01_cases(b: &Bounds) -> Vec<CaseDesc> {
     cases.extend(crate::codec::text_cases());
     cases.extend(crate::codec::position_cases(&crate::vals::binary_types()));
     cases.extend(crate::codec::every_class_cases());
+    cases.extend(crate::codec::same_name_cases());
+    cases.extend(crate::codec::known_and_unknown_ref_cases());
     cases.extend(crate::codec::forbidden_char_cases());
     cases.extend(crate::codec::count_cases());
     for n in [255usize, 256, 257, 300, 1000] {
@@ -302,6 +304,8 @@ pub fn c02_cases(b: &Bounds) -> Vec<CaseDesc> {
     cases.extend(crate::codec::text_cases());
     cases.extend(crate::codec::position_cases(&crate::vals::xml_types()));
     cases.extend(crate::codec::every_class_cases());
+    cases.extend(crate::codec::same_name_cases());
+    cases.extend(crate::codec::known_and_unknown_ref_cases());
     cases.extend(crate::codec::forbidden_char_cases());
     cases.extend(crate::codec::count_cases());
     for d in [1usize, 2, 3, 10, 100, 300] {
